@@ -54,6 +54,17 @@ def cases(rng, tier):
             yield "w_extkeys %s %s" % (w, sx(path)), "extkeys"
             yield "w_addr %s %s %s" % (w, sx(path), rng.choice(KINDS)), "addr"
             yield "w_group %s %s %s" % (w, sx(path), rng.choice(KINDS)), "group"
+    # wallets built with the class constructor from a node whose own flag differs from the wallet's: everything the
+    # WALLET emits must still follow the wallet's flag (the Wasabi export and node-level default serialisations
+    # follow the node's flag already on the unchanged code and are not requested here: see DESIGN 10.4)
+    for _ in range(2 if tier == "quick" else 40):
+        sd = hx(bytes(rng.getrandbits(8) for _ in range(16)))
+        for nt, wt in (("0", "1"), ("1", "0")):
+            w = "raw:%s:%s:%s" % (sd, nt, wt)
+            yield "generate %s %d 0 2" % (w, rng.choice([0, 1])), "raw-mismatch-generate"
+            yield "w_extkeys %s %s" % (w, sx("m/49'/1'/0'")), "raw-mismatch-extkeys"
+            yield "w_group %s %s p2pkh" % (w, sx("m/44'/0'/0'/0/1")), "raw-mismatch-group"
+            yield "w_addr %s %s %s" % (w, sx("m/0/1"), rng.choice(KINDS)), "raw-mismatch-addr"
     # re-import from each of the 12 versions
     from .c07 import payload, pub_sec
     for name, ver in ALL.items():
@@ -79,6 +90,8 @@ def nontrivial(line, out):
 
 def wallet_net(wspec):
     parts = wspec.split(":")
+    if parts[0] == "raw":
+        return "test" if parts[3] == "1" else "main"
     if parts[0] == "xkey":
         pl = b58check_dec(unstr(parts[1]))
         return "test" if int.from_bytes(pl[:4], "big") in VERS_TEST.values() else "main"
